@@ -555,6 +555,612 @@ func checkRetained(c retCase) string {
 }
 
 // ---------------------------------------------------------------------------
+// YAML input: numbers in every YAML spelling must be printed as JSON numbers
+
+// own strict JSON scanner (RFC 8259); numbers keep their literal text
+// (json.Number), objects must not repeat a key.
+type jscan struct {
+	s string
+	i int
+}
+
+func (p *jscan) ws() {
+	for p.i < len(p.s) && (p.s[p.i] == ' ' || p.s[p.i] == '\n' || p.s[p.i] == '\t' || p.s[p.i] == '\r') {
+		p.i++
+	}
+}
+
+func (p *jscan) fail(what string) error {
+	return fmt.Errorf("%s at byte %d (%q)", what, p.i, clip(p.s[min(p.i, len(p.s)):], 20))
+}
+
+func scanJSON(text string) (any, error) {
+	p := &jscan{s: text}
+	p.ws()
+	v, err := p.value(0)
+	if err != nil {
+		return nil, err
+	}
+	p.ws()
+	if p.i != len(p.s) {
+		return nil, p.fail("trailing data")
+	}
+	return v, nil
+}
+
+func (p *jscan) value(depth int) (any, error) {
+	if depth > 5000 {
+		return nil, p.fail("too deep")
+	}
+	if p.i >= len(p.s) {
+		return nil, p.fail("unexpected end")
+	}
+	switch c := p.s[p.i]; {
+	case c == 'n' && strings.HasPrefix(p.s[p.i:], "null"):
+		p.i += 4
+		return nil, nil
+	case c == 't' && strings.HasPrefix(p.s[p.i:], "true"):
+		p.i += 4
+		return true, nil
+	case c == 'f' && strings.HasPrefix(p.s[p.i:], "false"):
+		p.i += 5
+		return false, nil
+	case c == '"':
+		return p.str()
+	case c == '[':
+		p.i++
+		a := []any{}
+		p.ws()
+		if p.i < len(p.s) && p.s[p.i] == ']' {
+			p.i++
+			return a, nil
+		}
+		for {
+			p.ws()
+			v, err := p.value(depth + 1)
+			if err != nil {
+				return nil, err
+			}
+			a = append(a, v)
+			p.ws()
+			if p.i >= len(p.s) {
+				return nil, p.fail("unterminated array")
+			}
+			if p.s[p.i] == ',' {
+				p.i++
+				continue
+			}
+			if p.s[p.i] == ']' {
+				p.i++
+				return a, nil
+			}
+			return nil, p.fail("expected , or ]")
+		}
+	case c == '{':
+		p.i++
+		m := map[string]any{}
+		p.ws()
+		if p.i < len(p.s) && p.s[p.i] == '}' {
+			p.i++
+			return m, nil
+		}
+		for {
+			p.ws()
+			if p.i >= len(p.s) || p.s[p.i] != '"' {
+				return nil, p.fail("expected an object key")
+			}
+			k, err := p.str()
+			if err != nil {
+				return nil, err
+			}
+			p.ws()
+			if p.i >= len(p.s) || p.s[p.i] != ':' {
+				return nil, p.fail("expected :")
+			}
+			p.i++
+			p.ws()
+			v, err := p.value(depth + 1)
+			if err != nil {
+				return nil, err
+			}
+			if _, dup := m[k]; dup {
+				return nil, p.fail("repeated key " + strconv.Quote(k))
+			}
+			m[k] = v
+			p.ws()
+			if p.i >= len(p.s) {
+				return nil, p.fail("unterminated object")
+			}
+			if p.s[p.i] == ',' {
+				p.i++
+				continue
+			}
+			if p.s[p.i] == '}' {
+				p.i++
+				return m, nil
+			}
+			return nil, p.fail("expected , or }")
+		}
+	case c == '-' || c >= '0' && c <= '9':
+		st := p.i
+		if p.s[p.i] == '-' {
+			p.i++
+		}
+		digits := func() int {
+			n := 0
+			for p.i < len(p.s) && p.s[p.i] >= '0' && p.s[p.i] <= '9' {
+				p.i++
+				n++
+			}
+			return n
+		}
+		if p.i < len(p.s) && p.s[p.i] == '0' {
+			p.i++
+			if p.i < len(p.s) && p.s[p.i] >= '0' && p.s[p.i] <= '9' {
+				return nil, p.fail("number with a leading zero")
+			}
+		} else if digits() == 0 {
+			return nil, p.fail("number without digits")
+		}
+		if p.i < len(p.s) && p.s[p.i] == '.' {
+			p.i++
+			if digits() == 0 {
+				return nil, p.fail("number with an empty fraction")
+			}
+		}
+		if p.i < len(p.s) && (p.s[p.i] == 'e' || p.s[p.i] == 'E') {
+			p.i++
+			if p.i < len(p.s) && (p.s[p.i] == '+' || p.s[p.i] == '-') {
+				p.i++
+			}
+			if digits() == 0 {
+				return nil, p.fail("number with an empty exponent")
+			}
+		}
+		return json.Number(p.s[st:p.i]), nil
+	}
+	return nil, p.fail("unexpected character")
+}
+
+func (p *jscan) str() (string, error) {
+	p.i++ // opening quote
+	var sb strings.Builder
+	for {
+		if p.i >= len(p.s) {
+			return "", p.fail("unterminated string")
+		}
+		c := p.s[p.i]
+		switch {
+		case c == '"':
+			p.i++
+			return sb.String(), nil
+		case c < 0x20:
+			return "", p.fail("raw control character in a string")
+		case c == '\\':
+			if p.i+1 >= len(p.s) {
+				return "", p.fail("unterminated escape")
+			}
+			e := p.s[p.i+1]
+			p.i += 2
+			switch e {
+			case '"', '\\', '/':
+				sb.WriteByte(e)
+			case 'b':
+				sb.WriteByte('\b')
+			case 'f':
+				sb.WriteByte('\f')
+			case 'n':
+				sb.WriteByte('\n')
+			case 'r':
+				sb.WriteByte('\r')
+			case 't':
+				sb.WriteByte('\t')
+			case 'u':
+				hex4 := func() (rune, bool) {
+					if p.i+4 > len(p.s) {
+						return 0, false
+					}
+					n, err := strconv.ParseUint(p.s[p.i:p.i+4], 16, 32)
+					if err != nil || strings.ContainsAny(p.s[p.i:p.i+4], "+-") {
+						return 0, false
+					}
+					p.i += 4
+					return rune(n), true
+				}
+				r, ok := hex4()
+				if !ok {
+					return "", p.fail("bad \\u escape")
+				}
+				if r >= 0xd800 && r < 0xdc00 && strings.HasPrefix(p.s[p.i:], "\\u") {
+					save := p.i
+					p.i += 2
+					if lo, ok := hex4(); ok && lo >= 0xdc00 && lo < 0xe000 {
+						r = 0x10000 + (r-0xd800)<<10 + (lo - 0xdc00)
+					} else {
+						p.i = save
+					}
+				}
+				if r >= 0xd800 && r < 0xe000 {
+					r = utf8.RuneError
+				}
+				sb.WriteRune(r)
+			default:
+				return "", p.fail("bad escape")
+			}
+		default:
+			sb.WriteByte(c)
+			p.i++
+		}
+	}
+}
+
+// yv is the expected value of a YAML document: k = n (number, N its YAML
+// spelling), s (string), a (sequence), o (mapping with distinct keys).
+type yv struct {
+	K string `json:"k"`
+	N string `json:"n,omitempty"`
+	S string `json:"s,omitempty"`
+	A []yv   `json:"a,omitempty"`
+	O []ykv  `json:"o,omitempty"`
+}
+
+type ykv struct {
+	Key string `json:"key"`
+	Val yv     `json:"val"`
+}
+
+type yinCase struct {
+	YAML  string   `json:"yaml"`  // the document stream fed to --yaml-input
+	Want  []yv     `json:"want"`  // one per document
+	Flags []string `json:"flags"` // layout flags
+	Mode  string   `json:"mode"`  // mono | color | raw-tojson
+}
+
+var yamlNum = regexp.MustCompile(`^[-+]?(\.[0-9]+|[0-9]+(\.[0-9]*)?)([eE][-+]?[0-9]+)?$`)
+
+// jsonSpelling: own rewriting of a YAML 1.2 core-schema number into the JSON
+// grammar without touching its digits (only used to obtain its exact value).
+func jsonSpelling(y string) string {
+	y = strings.TrimPrefix(y, "+")
+	neg := strings.HasPrefix(y, "-")
+	y = strings.TrimPrefix(y, "-")
+	mant, exp := y, ""
+	if i := strings.IndexAny(y, "eE"); i >= 0 {
+		mant, exp = y[:i], y[i:]
+	}
+	ip, fp, hasDot := strings.Cut(mant, ".")
+	ip = strings.TrimLeft(ip, "0")
+	if ip == "" {
+		ip = "0"
+	}
+	out := ip
+	if hasDot && fp != "" {
+		out += "." + fp
+	}
+	if neg {
+		out = "-" + out
+	}
+	return out + exp
+}
+
+// sigDigits: the digits of the significand without leading zeros.
+func sigDigits(lit string) string {
+	if i := strings.IndexAny(lit, "eE"); i >= 0 {
+		lit = lit[:i]
+	}
+	lit = strings.TrimLeft(lit, "+-")
+	lit = strings.Replace(lit, ".", "", 1)
+	return strings.TrimLeft(lit, "0")
+}
+
+func yinMatch(want yv, got any, path string) string {
+	switch want.K {
+	case "n":
+		n, ok := got.(json.Number)
+		if !ok {
+			return fmt.Sprintf("at %s: the YAML number %s was printed as %s", path, want.N, clip(univ.Show(got), 100))
+		}
+		lit := string(n)
+		if strings.HasPrefix(want.N, ".") {
+			// an unsigned spelling without integer part is handed over by the
+			// YAML library as a float64: it is the double nearest to it
+			a, err1 := strconv.ParseFloat(want.N, 64)
+			b, err2 := strconv.ParseFloat(lit, 64)
+			if err1 != nil || err2 != nil || a != b {
+				return fmt.Sprintf("at %s: the YAML number %s was printed as %s, which is a different double", path, want.N, lit)
+			}
+			return ""
+		}
+		a, ok1 := litRat(jsonSpelling(want.N))
+		b, ok2 := litRat(lit)
+		if !ok1 || !ok2 || a.Cmp(b) != 0 {
+			return fmt.Sprintf("at %s: the YAML number %s was printed as %s, which is not the same number", path, want.N, lit)
+		}
+		if sigDigits(want.N) != sigDigits(lit) {
+			return fmt.Sprintf("at %s: the YAML number %s was printed as %s: the digits of the significand changed", path, want.N, lit)
+		}
+	case "s":
+		if g, ok := got.(string); !ok || g != want.S {
+			return fmt.Sprintf("at %s: the YAML string %q was printed as %s", path, want.S, clip(univ.Show(got), 100))
+		}
+	case "a":
+		g, ok := got.([]any)
+		if !ok || len(g) != len(want.A) {
+			return fmt.Sprintf("at %s: a sequence of %d was printed as %s", path, len(want.A), clip(univ.Show(got), 100))
+		}
+		for i := range g {
+			if msg := yinMatch(want.A[i], g[i], fmt.Sprintf("%s[%d]", path, i)); msg != "" {
+				return msg
+			}
+		}
+	case "o":
+		g, ok := got.(map[string]any)
+		if !ok || len(g) != len(want.O) {
+			return fmt.Sprintf("at %s: a mapping of %d was printed as %s", path, len(want.O), clip(univ.Show(got), 100))
+		}
+		for _, kv := range want.O {
+			x, ok := g[kv.Key]
+			if !ok {
+				return fmt.Sprintf("at %s: key %q is missing in %s", path, kv.Key, clip(univ.Show(got), 100))
+			}
+			if msg := yinMatch(kv.Val, x, path+"."+strconv.Quote(kv.Key)); msg != "" {
+				return msg
+			}
+		}
+	default:
+		return "bad case"
+	}
+	return ""
+}
+
+func splitLines(out, line string, n int) ([]string, string) {
+	chunks := make([]string, 0, n)
+	rest := out
+	for len(rest) > 0 {
+		k := strings.Index(rest, "\n"+line+"\n")
+		if k < 0 {
+			return nil, fmt.Sprintf("output does not end with the sentinel line: %q", clip(rest, 200))
+		}
+		chunks = append(chunks, rest[:k])
+		rest = rest[k+len(line)+2:]
+	}
+	if len(chunks) != n {
+		return nil, fmt.Sprintf("%d output values for %d documents: %q", len(chunks), n, clip(out, 300))
+	}
+	return chunks, ""
+}
+
+func checkYAMLIn(c yinCase) string {
+	query, sep := `., "`+sentinel+`"`, `"`+sentinel+`"`
+	args := []string{"--yaml-input", "-M"}
+	switch c.Mode {
+	case "mono", "color":
+	case "raw-tojson":
+		query, sep = `tojson, "`+sentinel+`"`, sentinel
+		args = append(args, "-r")
+	default:
+		return "bad mode"
+	}
+	args = append(args, c.Flags...)
+	r := cmdline.Run(cmdline.Opt{Stdin: []byte(c.YAML)}, append(args, query)...)
+	if r.TimedOut {
+		rec.Discard("cli-timeout")
+		return ""
+	}
+	where := fmt.Sprintf("gojq %v on YAML %q", args, clip(c.YAML, 300))
+	if r.Exit != 0 || r.Stderr != "" {
+		return fmt.Sprintf("%s exited %d, stderr %q", where, r.Exit, clip(r.Stderr, 400))
+	}
+	chunks, msg := splitLines(r.Stdout, sep, len(c.Want))
+	if msg != "" {
+		return where + ": " + msg
+	}
+	layouts := layoutsOf(c.Flags)
+	if c.Mode == "raw-tojson" {
+		layouts = []string{"c"}
+	}
+	for i, text := range chunks {
+		if !utf8.ValidString(text) {
+			return fmt.Sprintf("%s: document %d printed as invalid UTF-8 %q", where, i, clip(text, 200))
+		}
+		got, err := scanJSON(text)
+		if err != nil {
+			return fmt.Sprintf("%s: document %d is not printed as well-formed JSON (%v): %q", where, i, err, clip(text, 300))
+		}
+		if _, err := readBack(text); err != nil {
+			return fmt.Sprintf("%s: document %d: encoding/json rejects %q: %v", where, i, clip(text, 300), err)
+		}
+		if msg := yinMatch(c.Want[i], got, "$"); msg != "" {
+			return fmt.Sprintf("%s: document %d: %s (printed %q)", where, i, msg, clip(text, 300))
+		}
+		if msg := checkLayout(text, layouts); msg != "" {
+			return fmt.Sprintf("%s: document %d: indentation: %s", where, i, msg)
+		}
+	}
+	if c.Mode == "color" {
+		cargs := append([]string{"--yaml-input", "-C"}, c.Flags...)
+		rc := cmdline.Run(cmdline.Opt{Stdin: []byte(c.YAML)}, append(cargs, query)...)
+		if rc.TimedOut {
+			rec.Discard("cli-timeout")
+			return ""
+		}
+		if rc.Exit != 0 || rc.Stderr != "" {
+			return fmt.Sprintf("gojq %v exited %d, stderr %q", cargs, rc.Exit, clip(rc.Stderr, 400))
+		}
+		if sgr.ReplaceAllString(rc.Stdout, "") != r.Stdout {
+			return fmt.Sprintf("gojq %v on YAML %q: output without SGR sequences %q differs from the monochrome output %q", cargs, clip(c.YAML, 200), clip(sgr.ReplaceAllString(rc.Stdout, ""), 200), clip(r.Stdout, 200))
+		}
+	}
+	return ""
+}
+
+const classYAMLInZero = "C12/yaml-in-leading-zero"
+
+// genYAMLNum draws one spelling of the YAML 1.2 core-schema number grammar.
+func genYAMLNum(t *rapid.T) string {
+	digits := func(label string, min, max int) string {
+		n := rapid.IntRange(min, max).Draw(t, label+"n")
+		var sb strings.Builder
+		for i := 0; i < n; i++ {
+			sb.WriteByte(byte('0' + rapid.IntRange(0, 9).Draw(t, label)))
+		}
+		return sb.String()
+	}
+	var sb strings.Builder
+	sb.WriteString(rapid.SampledFrom([]string{"", "", "+", "-"}).Draw(t, "sign"))
+	intPart := func() string {
+		if rapid.IntRange(0, 3).Draw(t, "zero") == 0 {
+			return "0"
+		}
+		return string(byte('1'+rapid.IntRange(0, 8).Draw(t, "d0"))) + digits("int", 0, rapid.SampledFrom([]int{0, 1, 3, 18, 19, 40}).Draw(t, "intlen"))
+	}
+	form := rapid.IntRange(0, 4).Draw(t, "form")
+	zeros := ""
+	if form != 1 && rapid.IntRange(0, 5).Draw(t, "leadzero") == 0 {
+		if rec.KnownClass(classYAMLInZero) {
+			rec.Excluded(classYAMLInZero)
+		} else {
+			zeros = strings.Repeat("0", rapid.IntRange(1, 3).Draw(t, "zeros"))
+		}
+	}
+	switch form {
+	case 0: // integer
+		ip := intPart()
+		if zeros != "" && !strings.ContainsAny(ip, "89") {
+			ip += "9" // 0[0-7]+ is an octal number for the YAML library (documented there): not generated
+		}
+		sb.WriteString(zeros + ip)
+	case 1: // empty integer part
+		sb.WriteString("." + digits("frac", 1, rapid.SampledFrom([]int{1, 3, 17, 30}).Draw(t, "fraclen")))
+	case 2: // bare decimal point
+		sb.WriteString(zeros + intPart() + ".")
+	default:
+		sb.WriteString(zeros + intPart() + "." + digits("frac", 1, rapid.SampledFrom([]int{1, 3, 17, 30}).Draw(t, "fraclen")))
+	}
+	withExp := rapid.IntRange(0, 2).Draw(t, "exp") == 0
+	if zeros != "" && form == 0 {
+		withExp = true // keeps the spelling out of the integer (octal) rule
+	}
+	if withExp {
+		sb.WriteString(rapid.SampledFrom([]string{"e", "E"}).Draw(t, "e"))
+		sb.WriteString(rapid.SampledFrom([]string{"", "+", "-"}).Draw(t, "esign"))
+		sb.WriteString(rapid.SampledFrom([]string{"0", "1", "3", "03", "007", "10", "22", "308", "400", "999"}).Draw(t, "expdigits"))
+	}
+	out := sb.String()
+	if strings.HasPrefix(out, ".") {
+		// the YAML library resolves an unsigned spelling without integer part
+		// through ParseFloat and treats it as a string when that overflows
+		// (unlike 1e400 or +.1e400): what reaches the encoder is a string, so
+		// this is a question of YAML decoding and outside this property
+		if _, err := strconv.ParseFloat(out, 64); err != nil {
+			if i := strings.IndexAny(out, "eE"); i >= 0 {
+				out = out[:i]
+			}
+		}
+	}
+	return out
+}
+
+var yamlPlainStrings = []string{"abc", "x1", "1x", "1.2.3", "1e", ".e1", "+-1", "1.5.", "e5", "+", ".", "+.", "1e+", "--1", "1..2", "0x", "a b"}
+
+// ynode is a generated YAML node: its block rendering (lines relative to its
+// own indentation), its flow rendering and the expected value.
+type ynode struct {
+	flow   string   // one-line rendering usable anywhere (flow or scalar)
+	block  []string // block rendering; nil when only the flow form is used
+	want   yv
+	scalar bool
+}
+
+func genYAMLScalar(t *rapid.T) ynode {
+	switch rapid.IntRange(0, 9).Draw(t, "sk") {
+	case 0: // a quoted string that looks like a number
+		n := genYAMLNum(t)
+		q := rapid.SampledFrom([]string{`"`, `'`}).Draw(t, "quote")
+		return ynode{flow: q + n + q, want: yv{K: "s", S: n}, scalar: true}
+	case 1:
+		s := rapid.SampledFrom(yamlPlainStrings).Draw(t, "plain")
+		return ynode{flow: s, want: yv{K: "s", S: s}, scalar: true}
+	default:
+		n := genYAMLNum(t)
+		return ynode{flow: n, want: yv{K: "n", N: n}, scalar: true}
+	}
+}
+
+func genYAMLKey(t *rapid.T, i int) (text, key string) {
+	switch rapid.IntRange(0, 3).Draw(t, "keykind") {
+	case 0:
+		n := genYAMLNum(t)
+		q := rapid.SampledFrom([]string{`"`, `'`}).Draw(t, "kquote")
+		return q + n + q, n
+	default:
+		k := "k" + strconv.Itoa(i)
+		return k, k
+	}
+}
+
+func genYAMLNode(t *rapid.T, depth int) ynode {
+	kind := rapid.IntRange(0, 9).Draw(t, "nk")
+	if depth <= 0 || kind < 4 {
+		return genYAMLScalar(t)
+	}
+	n := rapid.IntRange(0, 4).Draw(t, "width")
+	flowOnly := n == 0 || rapid.IntRange(0, 2).Draw(t, "flow") == 0
+	kids := make([]ynode, n)
+	for i := range kids {
+		kids[i] = genYAMLNode(t, depth-1)
+	}
+	if kind < 7 { // sequence
+		w := yv{K: "a", A: []yv{}}
+		parts := make([]string, n)
+		for i, k := range kids {
+			w.A = append(w.A, k.want)
+			parts[i] = k.flow
+		}
+		nd := ynode{flow: "[" + strings.Join(parts, ", ") + "]", want: w}
+		if !flowOnly {
+			for _, k := range kids {
+				if k.block == nil {
+					nd.block = append(nd.block, "- "+k.flow)
+					continue
+				}
+				nd.block = append(nd.block, "-")
+				for _, l := range k.block {
+					nd.block = append(nd.block, "  "+l)
+				}
+			}
+		}
+		return nd
+	}
+	w := yv{K: "o", O: []ykv{}}
+	parts := make([]string, 0, n)
+	var block []string
+	seen := map[string]bool{}
+	for i, k := range kids {
+		text, key := genYAMLKey(t, i)
+		if seen[key] {
+			continue
+		}
+		seen[key] = true
+		w.O = append(w.O, ykv{Key: key, Val: k.want})
+		parts = append(parts, text+": "+k.flow)
+		if k.block == nil {
+			block = append(block, text+": "+k.flow)
+		} else {
+			block = append(block, text+":")
+			for _, l := range k.block {
+				block = append(block, "  "+l)
+			}
+		}
+	}
+	nd := ynode{flow: "{" + strings.Join(parts, ", ") + "}", want: w}
+	if !flowOnly && len(block) > 0 {
+		nd.block = block
+	}
+	return nd
+}
+
+// ---------------------------------------------------------------------------
 // getting an arbitrary Go value out of the command: a JSON "recipe" on stdin
 // and a fixed jq function that rebuilds the value from it.
 
@@ -1489,6 +2095,12 @@ func replayCase(sub string, raw json.RawMessage) string {
 			return "bad replay: " + err.Error()
 		}
 		return checkRetained(c)
+	case "yaml-in":
+		var c yinCase
+		if err := json.Unmarshal(raw, &c); err != nil {
+			return "bad replay: " + err.Error()
+		}
+		return checkYAMLIn(c)
 	case "yaml", "str2-yaml":
 		var c yamlCase
 		if err := json.Unmarshal(raw, &c); err != nil {
@@ -1813,4 +2425,67 @@ func TestC12(t *testing.T) {
 			t.Fatalf("%s", rec.Fail("yaml", mc, "%s", msg))
 		}
 	})
+	// (R6) YAML input: numbers in every spelling of the YAML 1.2 core schema,
+	// at top level, in block and flow sequences and mappings, next to quoted
+	// strings that look numeric, printed under every JSON mode
+	rec.Rapid(t, "yaml-in", rec.Scale(800, 12000), func(t *rapid.T) {
+		nd := rapid.IntRange(1, 4).Draw(t, "docs")
+		var sb strings.Builder
+		var want []yv
+		nums := 0
+		for i := 0; i < nd; i++ {
+			n := genYAMLNode(t, 3)
+			sb.WriteString("---\n")
+			if n.block != nil {
+				sb.WriteString(strings.Join(n.block, "\n"))
+			} else {
+				sb.WriteString(n.flow)
+			}
+			sb.WriteString("\n")
+			want = append(want, n.want)
+		}
+		c := yinCase{YAML: sb.String(), Want: want,
+			Flags: rapid.SampledFrom([][]string{{"-c"}, {}, {"--tab"}, {"--indent", "1"}, {"--indent", "7"}}).Draw(t, "flags"),
+			Mode:  rapid.SampledFrom([]string{"mono", "mono", "color", "raw-tojson"}).Draw(t, "mode")}
+		var count func(w yv)
+		count = func(w yv) {
+			switch w.K {
+			case "n":
+				nums++
+				switch {
+				case strings.HasPrefix(w.N, "+"):
+					rec.Class("yaml-in/plus-sign")
+				case strings.HasPrefix(strings.TrimPrefix(w.N, "-"), "."):
+					rec.Class("yaml-in/empty-integer-part")
+				}
+				if m, _, _ := strings.Cut(strings.ToLower(w.N), "e"); strings.HasSuffix(m, ".") {
+					rec.Class("yaml-in/bare-point")
+				}
+				if yamlNum.MatchString(w.N) && !numLit.MatchString(w.N) {
+					rec.Class("yaml-in/not-json-spelling")
+				}
+			case "a":
+				for _, x := range w.A {
+					count(x)
+				}
+			case "o":
+				for _, kv := range w.O {
+					count(kv.Val)
+				}
+			}
+		}
+		for _, w := range want {
+			count(w)
+		}
+		rec.Eval()
+		rec.Class("yaml-in/mode:" + c.Mode)
+		if nums > 0 {
+			rec.NT("yaml-in|" + c.Mode + strings.Join(c.Flags, " ") + "|" + c.YAML)
+		}
+		rec.Sample(map[string]any{"yaml": c.YAML, "flags": c.Flags, "mode": c.Mode})
+		if msg := checkYAMLIn(c); msg != "" {
+			t.Fatalf("%s", rec.Fail("yaml-in", c, "%s", msg))
+		}
+	})
+
 }
